@@ -349,8 +349,26 @@ func (group *Group) delRtspPubSession(session *rtsp.PubSession) {
 func (group *Group) delPullSession(session base.IObject) {
 	Log.Debugf("[%s] [%s] del PullSession from group.", group.UniqueKey, session.UniqueKey())
 
+	// 只有已经加入group的pull session才能清理输入，否则（比如pull失败、或者pull成功时group中已经有其他输入）
+	// 只需要重置pull状态，不能影响当前的输入
+	if !group.isAttachedPullSession(session) {
+		Log.Warnf("[%s] del pull session but not match. del session=%s", group.UniqueKey, session.UniqueKey())
+		group.pullProxy.isSessionPulling = false
+		return
+	}
+
 	group.resetRelayPullSession()
 	group.delIn()
+}
+
+func (group *Group) isAttachedPullSession(session base.IObject) bool {
+	if s, ok := session.(*rtmp.PullSession); ok {
+		return s != nil && s == group.pullProxy.rtmpSession
+	}
+	if s, ok := session.(*rtsp.PullSession); ok {
+		return s != nil && s == group.pullProxy.rtspSession
+	}
+	return false
 }
 
 // ---------------------------------------------------------------------------------------------------------------------
